@@ -82,3 +82,12 @@ Fixpoint walk (fuel : nat) (fs : tfs) (root cur : cpath) (rest : list string) : 
 (* Parser.loadFile under a root: Rel(rootPath, Abs(path)) must not start with ".." *)
 Definition root_open (fuel : nat) (fs : tfs) (root p : cpath) : res value :=
   if is_prefix root p then walk fuel fs root root (skipn (List.length root) p) else Err EOther.
+
+(* Parser.SetRoot: the new root is given relative to the CURRENT root handle (OpenRoot), so it must lie under it *)
+Definition set_root (cur p : cpath) : option cpath := if is_prefix cur p then Some p else None.
+
+Fixpoint set_roots (cur : cpath) (ps : list cpath) : option cpath :=
+  match ps with
+  | [] => Some cur
+  | p :: r => match set_root cur p with Some c => set_roots c r | None => None end
+  end.
